@@ -454,6 +454,10 @@ func knownMembers(home string, forSource bool) []member {
 		for _, k := range knownMembers("LInner2", forSource) {
 			ms = append(ms, member{"In." + k.Path, k.Home})
 		}
+	case "LWithAnon":
+		ms = []member{{"N", "int"}, {"Anon.x", "int"}, {"Anon.Y", "string"}}
+	case "LWithAnon2":
+		ms = []member{{"N", "int64"}, {"Anon.x", "int"}, {"Anon.Y", "string"}}
 	case "LTwin":
 		ms = []member{{"A", "int"}, {"B", "string"}, {"c", "int"}, {"D", "LInt"}}
 	case "ext.InnerTwin":
